@@ -120,6 +120,9 @@ func queryText(t texts, class string) (string, string) {
 		return "query OpT { __typename }", "OpT"
 	case "introspection":
 		return "query OpI { __schema { queryType { name } } t: __type(name: \"Query\") { name kind } }", "OpI"
+	case "introspectionvars":
+		// introspection arguments taken from variables (the driver sends values of several JSON types for $d)
+		return "query OpJ($d: Boolean, $n: String!) { t: __type(name: $n) { name fields(includeDeprecated: $d) { name } enumValues(includeDeprecated: $d) { name } } }", "OpJ"
 	case "introspectionmixed":
 		return "query OpX { __schema { queryType { name } } ping }", "OpX"
 	case "lonelyinterface":
@@ -128,7 +131,7 @@ func queryText(t texts, class string) (string, string) {
 	panic("query class " + class)
 }
 
-func objectBody(t texts, s shape) interface{} {
+func objectBody(t texts, s shape, rng *rand.Rand) interface{} {
 	m := map[string]interface{}{}
 	text, name := "", ""
 	switch s.Q {
@@ -148,6 +151,10 @@ func objectBody(t texts, s shape) interface{} {
 		m["variables"] = nil
 	case "object":
 		m["variables"] = map[string]interface{}{"unused": 1}
+		if s.Q == "introspectionvars" {
+			// a value of the wrong JSON type for a Boolean variable, one rendering per variant
+			m["variables"] = map[string]interface{}{"n": "Query", "d": []interface{}{"yes", 1, true, nil, []interface{}{}, map[string]interface{}{}}[rng.Intn(6)]}
+		}
 	case "string":
 		m["variables"] = "not-an-object"
 	case "array":
@@ -172,7 +179,7 @@ func objectBody(t texts, s shape) interface{} {
 
 func elemBody(t texts, class string) interface{} {
 	switch class {
-	case "valid", "valid2", "invalidquery":
+	case "valid", "valid2", "invalidquery", "introspection":
 		text, name := queryText(t, class)
 		return map[string]interface{}{"query": text, "operationName": name}
 	case "null":
@@ -203,6 +210,7 @@ func pathFor(class string, batch bool) []string {
 		"throughnonnull": {"variables.s"}, "duplicate": {"variables.f", "variables.f"},
 		"listindexnotnumeric": {"variables.files.x"}, "listindexoutofrange": {"variables.files.7"},
 		"listindexnegative": {"variables.files.-1"}, "listindexmissing": {"variables.files"}, "empty": {""},
+		"listindexhuge": {"variables.files.18446744073709551615"}, "batchindexhuge": {"18446744073709551615.variables.f"},
 		"batchindexmissing": {"variables.f"}, "batchindexnotnumeric": {"x.variables.f"},
 		"batchindexoutofrange": {"5.variables.f"}, "batchindexnegative": {"-1.variables.f"},
 	}[class]
@@ -228,7 +236,7 @@ func render(t texts, s shape, rng *rand.Rand) (string, []byte) {
 		}[s.Body]
 		return ct, []byte(body[rng.Intn(len(body))])
 	case "object":
-		b, _ := json.Marshal(objectBody(t, s))
+		b, _ := json.Marshal(objectBody(t, s, rng))
 		return ct, b
 	case "array":
 		arr := []interface{}{}
